@@ -10,8 +10,8 @@ from envlib import Adapter, Config
 class A(Adapter):
     name = "graph_coloring"
     lean = "graph_coloring"
-    serves = {"C04", "C05", "C06", "C08", "C09", "C10", "C11", "C12"}
-    ops = ("state", "step", "judge", "instance")
+    serves = {"C01", "C04", "C05", "C06", "C08", "C09", "C10", "C11", "C12"}
+    ops = ("state", "step", "judge", "instance", "bounds")
     terminate_on_invalid = True
     max_steps = 60
 
